@@ -8,6 +8,7 @@ open Go
 
 * `reset <builtin> <global> <modules>` — name lists: `hex[!]` joined by `,`
   (`!` = read-only), `.` = empty list → `ok`
+* `extb <hex name>` — `ExtendBuiltin` with one new variable → `ok`
 * `eval <hex src> <printable>` → `PARSE f:t… | fx=N g=same` / `COMPILE slug@f-t… | fx=N g=same`
   / `RUN <names>`   (`names`: sorted hex names of the global namespace afterwards)
 * `check <hex src> <printable>` → `CHECK P f:t… C slug@f-t… F hex…`
@@ -108,6 +109,11 @@ def step (ev : DEv) : List String → DEv × String
     match parseInfos sb, parseInfos sg, parseInfos sm with
     | some b, some g, some m => ({ builtin := b, global := g, rt := m.map (·.name) }, "ok")
     | _, _, _ => (ev, "bad-op")
+  | ["extb", hname] =>
+    -- `Evaler.ExtendBuiltin` with one new variable
+    match hexDecode hname with
+    | some n => ({ ev with builtin := ev.builtin ++ [{ name := n, readOnly := false }] }, "ok")
+    | none => (ev, "bad-op")
   | ["eval", hsrc, sprint] =>
     match hexDecode hsrc, parseIntList sprint with
     | some src, some pr => if shapeBad src pr then (ev, "SHAPE") else evalLine ev src pr
